@@ -951,8 +951,24 @@ func genByte(r *rand.Rand) string {
 }
 
 // mutate14 applies one byte-level edit: insert / delete / replace.
+// characters that text tools treat specially but the grammar does not know: byte order mark, no-break space, zero-width space,
+// line / paragraph separators, NEL, soft hyphen, form feed, vertical tab, carriage return
+var c14Marks = []string{"\xef\xbb\xbf", "\xc2\xa0", "\xe2\x80\x8b", "\xe2\x80\xa8", "\xe2\x80\xa9", "\xc2\x85", "\xc2\xad", "\f", "\v", "\r", "\xff\xfe", "\xfe\xff"}
+
 func mutate14(r *rand.Rand, s string) string {
 	b := []byte(s)
+	if r.Intn(5) == 0 { // one such character in front, at the end, or at a random place
+		m := pick(r, c14Marks)
+		switch r.Intn(3) {
+		case 0:
+			return m + s
+		case 1:
+			return s + m
+		default:
+			i := r.Intn(len(b) + 1)
+			return string(b[:i]) + m + string(b[i:])
+		}
+	}
 	switch k := r.Intn(3); {
 	case k == 0 || len(b) == 0:
 		i := r.Intn(len(b) + 1)
